@@ -98,6 +98,53 @@ def documented_forms_until_divergence(line, impl_answer, model_answer):
     return not has_undocumented_form(line, upto=idx if isinstance(idx, int) else None)
 
 
+# the commands a property's quantifier speaks about (documented forms only, see FORMS); a property that quantifies over the
+# whole simulated radio (C02, C10) names them all
+RELEVANT = {
+    "C03": {"POWERON", "POWEROFF", "SETFORMAT", "RXTUNE", "TXTUNE", "SETFH"},
+    "C12": {"POWERON", "POWEROFF", "RXTUNE", "TXTUNE", "SETFH"},
+    "C18": {"FAKE_DROP", "RFMUTE", "SETFORMAT", "POWERON", "POWEROFF", "RXTUNE", "TXTUNE", "SETFH"},
+    "C02": set(FORMS) | {"SETFH"},
+    "C10": set(FORMS) | {"SETFH"},
+}
+
+
+def domain_of(prop):
+    """the domain predicate of the correspondence for one of the world properties: a difference between code and model is
+    inside the property's domain unless (a) a known verb was sent in an undocumented form up to the first divergence, or
+    (b) the FIRST divergence is the reply to a control datagram that is not a documented form of a command the property's
+    quantifier speaks about (another verb, an unknown verb, a malformed datagram: C05's and C14's subject).  What such a
+    command does to the things the property is about is still judged by the property's oracle on the real code."""
+    rel = RELEVANT.get(prop)
+
+    def pred(line, impl_answer, model_answer):
+        if not documented_forms_until_divergence(line, impl_answer, model_answer):
+            return False
+        if rel is None:
+            return True
+        fd = first_diff(line, impl_answer, model_answer) or {}
+        idx = fd.get("op_index")
+        if not isinstance(idx, int):
+            return True
+        try:
+            t = line.split(" | ", 1)[1].split(" ; ")[idx].split()
+        except IndexError:
+            return True
+        if not (len(t) == 4 and t[0] == "C"):
+            return True                      # a burst, a tick, a clock jump
+        try:
+            txt = bytes.fromhex(t[3]).decode()
+        except (ValueError, UnicodeDecodeError):
+            return False                     # not text: a malformed control datagram
+        if not txt.startswith("CMD "):
+            return False
+        req = txt[4:].strip().strip("\0").split(" ")
+        if req[0] == "SETFH":
+            return "SETFH" in rel
+        return req[0] in rel and req[0] in FORMS and (len(req) - 1) in FORMS[req[0]]
+    return pred
+
+
 def correspond(run, corr, profiles, n_quick, n_thorough, in_domain=None):
     """model vs implementation on generated histories of the given profiles"""
     drift(run)
